@@ -11,7 +11,7 @@ grep '^fixed:' KNOWN_FINDINGS.txt | while read -r _ prop sha rest; do
     git -C $WT revert --abort >/dev/null 2>&1
     echo "$prop $sha REVERT-CONFLICT (not checked)"; continue
   fi
-  out=$(VERIF_REPO=$WT ./check $prop quick 2>&1); rc=$?
+  out=$(VERIF_REPO=$WT VERIF_OUT=$WT/_vf_out ./check $prop quick 2>&1); rc=$?
   echo "$prop $sha rc=$rc $(echo "$out" | grep -m1 'violation kind' )"
 done
 git -C /repo worktree remove --force $WT >/dev/null 2>&1; rm -rf $WT
